@@ -129,7 +129,8 @@ App(p, h) ==
       [] h.out.set /\ h.par.entry = "alloc" -> p = "C11"
       [] EngRun(h) -> p \in {"C03", "C05", "C06", "C08", "C10"} \/ (p = "C07" /\ h.par.variant = "engine_parallel")
       [] ReqRun(h) -> (p = "C18" /\ h.par.public_ip /\ h.cancel < 0) \/ (p = "C04" /\ h.par.via = "lib") \/ (p = "C11" /\ h.par.via = "lib") \/ p = "C15" \/ p = "C10" \/ (p = "C06" /\ h.par.via = "lib") \/ (p = "C01" /\ ((h.par.via = "lib" /\ h.par.tcp_method = "prefer_sack") \/ h.par.via = "http")) \/ (p = "C05" /\ h.par.via = "lib" /\ h.par.e2e > 0) \/ (p = "C16" /\ h.par.via = "http" /\ h.par.expect_status = 200) \/ (p = "C19" /\ h.par.expect.kind # "none") \/ (p = "C20" /\ h.par.expect20.out # "none") \/ (p = "C17" /\ Len(h.par.expect17.routers) > 0)
-      [] p \in {"C01", "C04", "C05"} -> WireRun(h) /\ ok
+      [] p = "C11" -> WireRun(h) /\ h.par.concurrent > 1
+      [] p \in {"C01", "C04", "C05"} -> WireRun(h) /\ ok /\ h.par.concurrent <= 1
       [] p \in {"C02", "C03"}        -> WireRun(h) /\ ok /\ Len(s) >= 1
       [] p \in {"C06", "C08", "C10"} -> WireRun(h)
       [] p = "C07" -> WireRun(h) /\ ok /\ ~IsSerial(V(h)) /\ Len(s) >= 1
@@ -167,6 +168,7 @@ Holds(p, h) ==
                           [] p = "C16" -> /\ h.out.status = 200 /\ h.out.ok /\ h.out.ctype = "application/json"
                                           \* identifiers of this answer and of the answers to the requests served at the same time: pairwise distinct
                                           /\ Cardinality({h.out.all_ids[i] : i \in DOMAIN h.out.all_ids}) = Len(h.out.all_ids) [] p = "C19" -> C19_run(h) [] p = "C20" -> C20_run(h) [] p = "C17" -> C17_run(h) [] OTHER -> TRUE)
+      [] p = "C11" -> C11_same(h)
       [] p = "C01" -> C01_run(h, s, d, hp)
       \* completeness is owed to what ARRIVED at the host: a packet the installed capture filter rejected counts as arrived
       \* ... and so does a packet that arrived inside the window after a parallel run had already stopped listening
@@ -192,7 +194,7 @@ Report ==
 \* L2: the design's prediction equals the real output (fault-free, uncancelled, filter-free wire runs)
 \* (random byte flips of genuine replies are outside the design's packet model: whether a flipped reply is still decodable depends on
 \* decoder details - e.g. the quoted total-length field - that Matcher.tla does not carry; such batches are judged by C09 only)
-L2App(h) == h.par.entry # "crash" /\ WireRun(h) /\ ~h.par.realclock /\ Len(snt1(h)) >= 1 /\ Len(h.flt) = 0 /\ h.cancel < 0 /\ h.out.panic = ""
+L2App(h) == h.par.entry # "crash" /\ WireRun(h) /\ ~h.par.realclock /\ h.par.concurrent <= 1 /\ Len(snt1(h)) >= 1 /\ Len(h.flt) = 0 /\ h.cancel < 0 /\ h.out.panic = ""
             /\ ~\E i \in DOMAIN h.arr : Len(h.arr[i].tag) >= 8 /\ SubSeq(h.arr[i].tag, 1, 8) = "inj:flip"
 Drift ==
     (H.out.set /\ Wants("L2")) =>
